@@ -61,6 +61,7 @@ def check(ctx):
                 key = "C04/order4/pattern-aabb" if (order == 4 and pat == (2, 2)) else f"C04/oracle/census/order{order}"
                 ctx.fail("oracle", key, f"table {name} (N={N}) order {order}, no cutoff: {cnt} index tuples with equality pattern {pat} are eliminated (forced to zero)",
                          replay={"tp": tp.tolist(), "order": order, "pattern": list(pat), "count": cnt}, has_input=True)
+    pair_model_span(ctx, np.random.default_rng(ctx.seed + 3))
     # ---- dense reference
     cells = [("mono_P", (1, 1, 1)), ("tri2_P1", (1, 1, 1)), ("tri1", (2, 1, 1)), ("hcp", (1, 1, 1)), ("tri3_P1", (1, 1, 1)), ("tri2_obtuse", (1, 1, 1)), ("ortho1", (2, 1, 1)), ("hex1", (1, 1, 2))]
     if not ctx.quick:
@@ -141,3 +142,33 @@ def check(ctx):
                         if Q22.shape[1] == F.shape[1] and (F.shape[1] == 0 or np.abs(F - Q22 @ (Q22.T @ F)).max() < 1e-7):
                             key = "C04/order4/pattern-aabb"
                     ctx.fail("oracle", key, f"{sc['name']} order {order} cutoff={cut}: basis has {F.shape[1]} vectors, the admissible space has dimension {Q.shape[1]}", replay=rep, has_input=True)
+
+
+def pair_model_span(ctx, rng):
+    """Completeness beyond the reach of the dense reference: the derivatives of a periodic pair-potential energy are admissible
+    tensors (harness/pairmodel.py) and must lie in the span of the basis -- supercells up to 216 atoms, both sides of every
+    size-dependent path (number of combinations, batches, integer widths)."""
+    from symfc import Symfc
+    from pairmodel import pair_tensor
+
+    cells = [("tri2_P1", (3, 1, 1), (2, 3), True), ("p4_general", (1, 1, 1), (2, 3), True), ("hcp", (3, 3, 1), (2, 3), True),
+             ("bcc_conv", (3, 3, 2), (3,), False), ("sc1", (4, 4, 4), (2,), False)]
+    if not ctx.quick:
+        cells += [("sc1", (6, 6, 6), (2,), False), ("fcc_conv", (2, 2, 2), (2, 3), False), ("wurtzite", (3, 3, 1), (2, 3), True), ("nacl_prim", (3, 3, 2), (3,), True),
+                  ("mono_P", (3, 2, 2), (2, 3), True), ("bcc_conv", (3, 3, 2), (2, 3), True)]
+    for cname, diag, orders, shuffle in cells:
+        sc = make_supercell(base_cells()[cname], diag, rng=rng, shuffle=shuffle)
+        N = len(sc["numbers"])
+        at = atoms_of(sc)
+        for order in orders:
+            o = Symfc(at).compute_basis_set(orders=[order])
+            b = o.basis_set[order]
+            C, B = b.compression_matrix, np.asarray(b.basis_set)
+            T = pair_tensor(order, sc["lattice"], sc["positions"], sc["numbers"]).reshape(-1)
+            scale = float(np.abs(T).max())
+            resid = float(np.abs(T - C @ (B @ (B.T @ (C.T @ T)))).max() / scale) if B.shape[1] else 1.0
+            ctx.case({"pair_model": sc["name"], "order": order, "N": N, "n_basis": int(B.shape[1])}, nontrivial=True)
+            ctx.count(f"pair-model-order{order}")
+            if not resid <= 1e-9:
+                ctx.fail("oracle", f"C04/oracle/pair-model/order{order}", f"{sc['name']} (N={N}) order {order}: the order-{order} derivative tensor of a periodic pair-potential energy (admissible by construction) is not in the span of the {B.shape[1]} basis vectors (relative residual {resid:.2e})",
+                         replay={"cell": sc["name"], "lattice": np.asarray(sc["lattice"]).tolist(), "positions": np.asarray(sc["positions"]).tolist(), "numbers": [int(z) for z in sc["numbers"]], "order": order, "residual": resid}, has_input=True)
